@@ -1,7 +1,9 @@
 // Command instrument rewrites a scratch copy of go-cose so that the simulator
 // owns (a) every preemption point - a call verifsim.Yield(site) before every
 // statement of every function of package cose - and (b) the iteration order of
-// every `for ... range <map>` loop, which is routed through verifsim.Pairs.
+// every `for ... range <map>` loop, which is routed through verifsim.Pairs,
+// (c) the wall clock (time.Now/Since/Until -> verifsim) and (d) the process
+// environment (os.Getenv/LookupEnv -> verifsim).
 //
 // It edits source text at AST positions (comments, build tags and formatting
 // survive) and copies the verifsim package into the tree.  With no scheduler
@@ -86,9 +88,10 @@ func main() {
 		// and let the build step produce the authoritative error.
 		fmt.Println("type errors (build will report them):", strings.Join(typeErrs, "; "))
 	}
-	site, maps, clocks := 0, 0, 0
+	site, maps, clocks, envs := 0, 0, 0, 0
 	var table []string
 	timeFiles := map[string]bool{}
+	osFiles := map[string]bool{}
 	for i, f := range files {
 		name := names[i]
 		src, err := os.ReadFile(name)
@@ -137,14 +140,26 @@ func main() {
 						break
 					}
 					pn, ok := info.Uses[id].(*types.PkgName)
-					if !ok || pn.Imported().Path() != "time" {
+					if !ok {
 						break
 					}
-					switch n.Sel.Name {
-					case "Now", "Since", "Until":
-						clocks++
-						timeFiles[name] = true
-						edits = append(edits, edit{off(n.Pos()), off(n.End()), "verifsim." + n.Sel.Name})
+					switch pn.Imported().Path() {
+					case "time":
+						switch n.Sel.Name {
+						case "Now", "Since", "Until":
+							clocks++
+							timeFiles[name] = true
+							edits = append(edits, edit{off(n.Pos()), off(n.End()), "verifsim." + n.Sel.Name})
+						}
+					case "os":
+						// (d) the process environment: os.Getenv / os.LookupEnv
+						// read the simulator's
+						switch n.Sel.Name {
+						case "Getenv", "LookupEnv":
+							envs++
+							osFiles[name] = true
+							edits = append(edits, edit{off(n.Pos()), off(n.End()), "verifsim." + n.Sel.Name})
+						}
 					}
 				case *ast.RangeStmt:
 					tv, ok := info.Types[n.X]
@@ -194,6 +209,9 @@ func main() {
 			keep = "\nvar _ = time.Nanosecond // (keeps the import used once the clock reads are rerouted)\n"
 		}
 		edits = append(edits, edit{off(f.Name.End()), off(f.Name.End()), "\nimport \"github.com/veraison/go-cose/verifsim\"\n"})
+		if osFiles[name] {
+			keep += "\nvar _ = os.ErrNotExist // (keeps the import used once the environment reads are rerouted)\n"
+		}
 		if keep != "" {
 			edits = append(edits, edit{len(src), len(src), keep})
 		}
@@ -222,7 +240,7 @@ func main() {
 	if err := os.WriteFile(filepath.Join("verifsim", "sites_gen.go"), []byte(tb.String()), 0o644); err != nil {
 		die(err)
 	}
-	fmt.Printf("sites: %d map ranges: %d clock reads: %d\n", site, maps, clocks)
+	fmt.Printf("sites: %d map ranges: %d clock reads: %d environment reads: %d\n", site, maps, clocks, envs)
 }
 
 func typeName(e ast.Expr) string {
